@@ -14,7 +14,9 @@
 //	                     f trusted_ca_certs_pem_files, l trusted_leaf_certs, v verifiers only (leaf,
 //	                     no loaders), V verifiers only (leaf with a pem loader), w verifiers + mode
 //	                     request, i empty client_authentication block (inactive)
-//	              sni    ~ (no sni matcher) | . (sni matcher with no names) | hex,hex,…
+//	              sni    ~ (no sni matcher) | . (sni matcher with no names) | N,N,…   N = hex, or for a
+//	                     name with non-ASCII characters hex=hex: the name and what idna.ToASCII makes
+//	                     of it (an external call, observed when the line was written, re-observed by Run)
 //	              opq    ~ | increasing letters a..p: a-f remote_ip configs, g-j local_ip configs,
 //	                     k-p sni_regexp configs (fixed tables below; at most one letter per kind)
 //	    hellos    H;H;…   H = <sniHex>/<remoteAddrIdx>/<localAddrIdx>/<16 verdict bits>
@@ -55,7 +57,8 @@
 //	e2e <srv> <hs> <sniHex> <hostHex>
 //	    a REAL crypto/tls handshake (client without certificate, over an in-memory pipe) against the
 //	    TLSConfig of a provisioned server with policies [sni secret.test + client auth: srv 0 = mode
-//	    require, srv 1 = a leaf verifier module and nothing else, srv 2 = trusted_leaf_certs only],
+//	    require, srv 1 = a leaf verifier module and nothing else, srv 2 = trusted_leaf_certs only; srv 3
+//	    protects the wildcard site *.secret.test, srv 4 the IDN site written "é.test" in the config],
 //	    [catch-all, fallback_sni public.test], sites secret.test, public.test and strict_sni_host
 //	    left to the auto-enable rule; then one request with that connection's ConnectionState.
 //	    hs = f (handshake failed) | p<i> (completed under policy i) as observed when the line was written.
@@ -91,6 +94,7 @@ import (
 	_ "github.com/caddyserver/caddy/v2/modules/caddyevents"
 	"github.com/caddyserver/caddy/v2/modules/caddyhttp"
 	"github.com/caddyserver/caddy/v2/modules/caddytls"
+	"golang.org/x/net/idna"
 
 	"verif/harness/internal/core"
 )
@@ -273,7 +277,7 @@ type prop struct {
 	e2eTLS     [nE2ESrv]*tls.Config
 }
 
-const nE2ESrv = 4
+const nE2ESrv = 5
 
 const authShapes = "cCgkKaflvVw" // the active client-auth shapes; 'i' is the inactive one
 
@@ -281,10 +285,22 @@ var e2eSites = []string{"secret.test", "public.test"}
 
 // e2e server 3 protects a WILDCARD site (policy `sni *.secret.test`, route `host *.secret.test`)
 func e2eSitesOf(k int) []string {
-	if k == 3 {
+	switch k {
+	case 3:
 		return []string{"*.secret.test", "public.test"}
+	case 4: // configured as "\u00e9.test" (see e2eConfigured); this is its IDNA form
+		return []string{"xn--9ca.test", "public.test"}
 	}
 	return e2eSites
+}
+
+// e2eConfigured: the site names as written in the config. Server 4 protects an IDN site written in
+// Unicode form, both in its connection policy (sni) and in its route (host).
+func e2eConfigured(k int) []string {
+	if k == 4 {
+		return []string{"\u00e9.test", "public.test"}
+	}
+	return e2eSitesOf(k)
 }
 
 // hasEmptyLabel: one of the name's dot-separated labels is empty (leading / doubled / trailing dot;
@@ -386,9 +402,13 @@ func (p *prop) setup() error {
 		if err != nil {
 			return err
 		}
+		c4, k4, err := selfSigned("xn--9ca.test")
+		if err != nil {
+			return err
+		}
 		tlsRaw, _ := json.Marshal(map[string]any{"certificates": map[string]any{"load_pem": []any{
 			map[string]any{"certificate": c1, "key": k1}, map[string]any{"certificate": c2, "key": k2},
-			map[string]any{"certificate": c3, "key": k3}}}})
+			map[string]any{"certificate": c3, "key": k3}, map[string]any{"certificate": c4, "key": k4}}}})
 		cfg := &caddy.Config{Logging: &caddy.Logging{Logs: map[string]*caddy.CustomLog{
 			"default": {BaseLog: caddy.BaseLog{WriterRaw: json.RawMessage(`{"output":"discard"}`)}},
 		}}, AppsRaw: caddy.ModuleMap{"tls": tlsRaw}}
@@ -475,8 +495,46 @@ type policy struct {
 	flags  string
 	hasSNI bool
 	names  []string
+	conv   []string // parallel to names: idna.ToASCII(name) for names that are not ASCII, else ""
 	opq    []int
 }
+
+// idnaOK: every converted form a line carries is what idna.ToASCII answers now
+func idnaOK(pols []policy) bool {
+	for _, pl := range pols {
+		for i, n := range pl.names {
+			if i < len(pl.conv) && pl.conv[i] != "" {
+				if a, err := idna.ToASCII(n); err != nil || a != pl.conv[i] {
+					return false
+				}
+			}
+		}
+	}
+	return true
+}
+
+// normNames: the names IDNA-normalised (what a client puts on the wire for them)
+func (pl policy) normNames() []string {
+	out := make([]string, len(pl.names))
+	for i, n := range pl.names {
+		out[i] = n
+		if i < len(pl.conv) && pl.conv[i] != "" {
+			out[i] = pl.conv[i]
+		}
+	}
+	return out
+}
+
+func (pl policy) hasIDN() bool {
+	for _, c := range pl.conv {
+		if c != "" {
+			return true
+		}
+	}
+	return false
+}
+
+const clsIDN = "idn-sni-name-not-normalised"
 
 func (pl policy) drop() bool { return strings.HasPrefix(pl.flags, "d") }
 func (pl policy) authFlag() byte {
@@ -541,12 +599,28 @@ func parsePolicies(s string) ([]policy, bool) {
 			pl.hasSNI = true
 		default:
 			pl.hasSNI = true
-			for _, h := range strings.Split(parts[1], ",") {
-				n, err := core.UnHex(h)
-				if err != nil || h == "" || !asciiClean(n, true) {
+			for _, tok := range strings.Split(parts[1], ",") {
+				hc := strings.Split(tok, "=")
+				if len(hc) > 2 || hc[0] == "" {
+					return nil, false
+				}
+				n, err := core.UnHex(hc[0])
+				if err != nil || !asciiClean(n, true) {
+					return nil, false
+				}
+				conv := ""
+				if len(hc) == 2 {
+					conv, err = core.UnHex(hc[1])
+					if err != nil || hc[1] == "" || !isASCII(conv) || !asciiClean(conv, true) {
+						return nil, false
+					}
+				}
+				// a converted form is carried exactly by the names that are not ASCII
+				if isASCII(n) != (len(hc) == 1) {
 					return nil, false
 				}
 				pl.names = append(pl.names, n)
+				pl.conv = append(pl.conv, conv)
 			}
 		}
 		if parts[2] != "~" {
@@ -786,6 +860,9 @@ func (p *prop) runPol(f []string) core.Outcome {
 	if !ok {
 		return bad
 	}
+	if !idnaOK(pols) {
+		return core.Outcome{Impl: "idna-mismatch", Tags: []string{"idna-mismatch"}}
+	}
 	cps, err := p.build(pols)
 	if err != nil {
 		return core.Outcome{Impl: "provision-error", Failures: []core.Failure{{Class: "provision-error", What: err.Error()}}}
@@ -847,8 +924,13 @@ func (p *prop) runPol(f []string) core.Outcome {
 		for i, pl := range pols {
 			m := true
 			if pl.hasSNI {
-				m = caddytls.MatchServerName(pl.names).Match(mkHello(h.sni, h.r, h.l))
-				p.checkSNIMatcher(pl.names, h.sni, m, fail)
+				if pl.hasIDN() {
+					// ask a matcher module loaded and provisioned the way the policy's own is
+					m = p.sniModule(pl.names).Match(mkHello(h.sni, h.r, h.l))
+				} else {
+					m = caddytls.MatchServerName(pl.names).Match(mkHello(h.sni, h.r, h.l))
+				}
+				p.checkSNIMatcher(pl, h.sni, m, fail)
 			}
 			for _, id := range pl.opq {
 				m = m && obs[id] == '1'
@@ -946,19 +1028,34 @@ func refWildcard(subject, wildcard string) bool {
 
 // checkSNIMatcher: what the real sni matcher answers must be what the wildcard rule says (so that a
 // broken matcher shows up as a concrete failing input, not only as a model disagreement).
-func (p *prop) checkSNIMatcher(names []string, sni string, got bool, fail func(string, string)) {
+func (p *prop) checkSNIMatcher(pl policy, sni string, got bool, fail func(string, string)) {
 	want := false
-	for _, n := range names {
+	for _, n := range pl.normNames() {
 		if refWildcard(sni, n) {
 			want = true
 		}
 	}
-	switch {
-	case want && !got:
-		fail("sni-matcher-misses-name", fmt.Sprintf("sni %q does not match hello %q although a listed name covers it", names, sni))
-	case !want && got:
-		fail("sni-matcher-false-positive", fmt.Sprintf("sni %q matches hello %q although no listed name covers it", names, sni))
+	if want == got {
+		return
 	}
+	switch {
+	case pl.hasIDN():
+		fail(clsIDN, fmt.Sprintf("sni %q (IDNA form %q) answers %v for hello %q; the rule applied to the IDNA form says %v", pl.names, pl.normNames(), got, sni, want))
+	case want:
+		fail("sni-matcher-misses-name", fmt.Sprintf("sni %q does not match hello %q although a listed name covers it", pl.names, sni))
+	default:
+		fail("sni-matcher-false-positive", fmt.Sprintf("sni %q matches hello %q although no listed name covers it", pl.names, sni))
+	}
+}
+
+// sniModule loads a tls.handshake_match.sni module (provisioned by the real LoadModule machinery)
+func (p *prop) sniModule(names []string) caddytls.ConnectionMatcher {
+	raw, _ := json.Marshal(names)
+	v, err := p.ctx.LoadModuleByID("tls.handshake_match.sni", raw)
+	if err != nil {
+		return caddytls.MatchServerName(names)
+	}
+	return v.(caddytls.ConnectionMatcher)
 }
 
 // ---------------------------------------------------------------- enforcement
@@ -999,6 +1096,9 @@ func (p *prop) runEnf(f []string) core.Outcome {
 	pols, ok := parsePolicies(f[2])
 	if !ok {
 		return bad
+	}
+	if !idnaOK(pols) {
+		return core.Outcome{Impl: "idna-mismatch", Tags: []string{"idna-mismatch"}}
 	}
 	var sites []string
 	if f[3] != "." {
@@ -1165,14 +1265,14 @@ func (p *prop) runEnf(f []string) core.Outcome {
 // ---------------------------------------------------------------- end to end (real handshake)
 
 func (p *prop) setupE2E() error {
-	for k, shape := range []byte{'C', 'V', 'l', 'C'} {
+	for k, shape := range []byte{'C', 'V', 'l', 'C', 'C'} {
 		pols := []any{
-			map[string]any{"alpn": []string{"c19-0"}, "match": map[string]any{"sni": []string{e2eSitesOf(k)[0]}},
+			map[string]any{"alpn": []string{"c19-0"}, "match": map[string]any{"sni": []string{e2eConfigured(k)[0]}},
 				"client_authentication": p.clientAuthJSON(shape)},
 			map[string]any{"alpn": []string{"c19-1"}, "fallback_sni": "public.test"},
 		}
 		var routes []any
-		for i, s := range e2eSitesOf(k) {
+		for i, s := range e2eConfigured(k) {
 			routes = append(routes, map[string]any{
 				"match":    []any{map[string]any{"host": []string{s}}},
 				"handle":   []any{map[string]any{"handler": "verif_c19_probe", "site": strconv.Itoa(i)}},
@@ -1295,7 +1395,11 @@ func (p *prop) runE2E(f []string) core.Outcome {
 		fail("bracketed-sni-completes-handshake", fmt.Sprintf("a handshake with SNI %q completed (under policy %s); strict SNI-Host does not bind bracketed names", sni, hs))
 	}
 	if refWildcard(sni, e2eSitesOf(k)[0]) && hs != "p0" {
-		fail("later-policy-chosen-over-first-match", fmt.Sprintf("real handshake with SNI %q completed under policy %s; first match is the client-auth policy 0", sni, hs))
+		cls := "later-policy-chosen-over-first-match"
+		if k == 4 {
+			cls = clsIDN
+		}
+		fail(cls, fmt.Sprintf("real handshake with SNI %q completed under policy %s; first match is the client-auth policy 0", sni, hs))
 	}
 	if hs == "p0" {
 		fail("client-auth-handshake-completes-without-certificate", fmt.Sprintf("handshake with SNI %q completed under the client-auth policy although the client has no certificate", sni))
@@ -1325,13 +1429,16 @@ func (p *prop) runE2E(f []string) core.Outcome {
 		if obsStrict && unicodeFoldOnly(sni, e2eSites[0]) {
 			class = clsUnicodeFold
 		}
+		if obsStrict && k == 4 && foldEq(sni, e2eSitesOf(k)[0]) {
+			class = clsIDN
+		}
 		if obsStrict && k == 3 && hasEmptyLabel(sni) && refHostWildcard(sni, e2eSitesOf(k)[0]) {
 			class = clsEmptyLabel
 		}
 		fail(class, fmt.Sprintf("connection SNI %q (policy %s, no client certificate), Host %q: request reached the handler of %s", sni, hs, host, e2eSitesOf(k)[0]))
 	}
 	if !obsStrict {
-		fail("strict-sni-host-not-enabled", fmt.Sprintf("e2e server %d (client-auth shape %c) has a client-auth policy and no explicit strict_sni_host, but does not enforce strict SNI-Host", k, "CVlC"[k]))
+		fail("strict-sni-host-not-enabled", fmt.Sprintf("e2e server %d (client-auth shape %c) has a client-auth policy and no explicit strict_sni_host, but does not enforce strict SNI-Host", k, "CVlCC"[k]))
 	}
 	o.Impl = "hs=" + hs + " strict=" + map[bool]string{false: "0", true: "1"}[obsStrict] + " " + res
 	return o
